@@ -185,8 +185,11 @@ Expect ==
             EXCEPT !.may = ~ViewDefined(pool[Ev.a].c, Ev.hasLo, Ev.qlo, Ev.hasHi, Ev.qhi)]
     [] op = "FromDoc" ->
          (* loading a document: must raise iff the document is invalid; unspecified documents may do either *)
+         (* ... except that a document toJson itself produced (Ev.mkind = "none") must always load - also where it   *)
+         (* holds what the model calls unspecified, e.g. JSON booleans written for boolean-valued quantities         *)
          LET st == Parse(Ev.doc).st IN
-         [X(0, st = "invalid", Absent.c, DummyD, FALSE, FALSE, "pure") EXCEPT !.may = (st = "unspec")]
+         [X(0, st = "invalid" /\ Ev.mkind # "none", Absent.c, DummyD, FALSE, FALSE, "pure")
+            EXCEPT !.may = (st = "unspec" /\ Ev.mkind # "none")]
     [] op = "Drop" -> X(Ev.s, FALSE, Absent.c, DummyD, FALSE, FALSE, "drop")
 
 -----------------------------------------------------------------------------
@@ -303,6 +306,7 @@ DevFor(E, cl) ==
     THEN "Dev_SumNumpyDropsNaN"      \* make_histograms fills through fill.numpy
   ELSE IF op = "FillNumpy" /\ cl \in {"state", "sem", "outcome", "unchanged", "wf"}
           /\ Ev.wf \in {"one", "scalar"} /\ LeadCount(pool[Ev.s].d)
+          /\ Ev.lead     \* (... and that Count comes first in the traversal: after a quantity-bearing sibling the batch length is known)
     THEN "Dev_LeadingCountScalarWeight"
   ELSE IF op \in {"Add", "Combine", "IAdd"} /\ cl \in {"state", "sem", "wf"} /\ Ok /\ Ev.boolstr
           /\ (~pool[Ev.a].mut \/ ~pool[Ev.b].mut)
